@@ -525,8 +525,9 @@ def opaque_mock_probe(ctx, root):
 
     def fn(*a):
         calls.append(a); return 'CALLED'
-    for k, mock in enumerate([fn, dict, (lambda: 5)]):
-        case = {'probe': 'opaque mock value', 'kind': ['function', 'class', 'lambda'][k]}
+    shared_list = [1, {'k': [2]}]         # (a mutable value: the task receives THE object that was supplied, as it would from a real upstream task)
+    for k, mock in enumerate([fn, dict, (lambda: 5), shared_list]):
+        case = {'probe': 'opaque mock value', 'kind': ['function', 'class', 'lambda', 'mutable list'][k]}
         ctx.case(case); ctx.count('opaque-mock-probe')
         for via in ('create_test_task', 'TestChain'):
             if via == 'create_test_task':
